@@ -307,7 +307,11 @@ func (p *ProtocolGraphQLWSHandler) Handle(ctx context.Context, engine subscripti
 		ctx, err = p.handleInit(ctx, message.Payload)
 		if err != nil {
 			p.writeEventHandler.HandleWriteEvent(GraphQLWSMessageTypeConnectionError, "", nil, errors.New("failed to accept the websocket connection"))
-			return engine.TerminateAllSubscriptions(&p.writeEventHandler)
+			terminateErr := engine.TerminateAllSubscriptions(&p.writeEventHandler)
+			// The connection was refused: it must not stay usable for a client that ignores the
+			// connection_error (subscriptions-transport-ws closes the socket after it).
+			p.disconnect()
+			return terminateErr
 		}
 
 		go p.handleKeepAlive(ctx)
@@ -316,12 +320,23 @@ func (p *ProtocolGraphQLWSHandler) Handle(ctx context.Context, engine subscripti
 	case GraphQLWSMessageTypeStop:
 		return engine.StopSubscription(message.Id, &p.writeEventHandler)
 	case GraphQLWSMessageTypeConnectionTerminate:
-		return engine.TerminateAllSubscriptions(&p.writeEventHandler)
+		terminateErr := engine.TerminateAllSubscriptions(&p.writeEventHandler)
+		// connection_terminate asks the server to close the connection
+		p.disconnect()
+		return terminateErr
 	default:
 		p.writeEventHandler.HandleWriteEvent(GraphQLWSMessageTypeConnectionError, message.Id, nil, fmt.Errorf("%s: %s", ErrGraphQLWSUnexpectedMessageType.Error(), message.Type))
 	}
 
 	return nil
+}
+
+func (p *ProtocolGraphQLWSHandler) disconnect() {
+	if err := p.writeEventHandler.Writer.Client.Disconnect(); err != nil {
+		p.logger.Error("websocket.ProtocolGraphQLWSHandler.disconnect: on client disconnect",
+			abstractlogger.Error(err),
+		)
+	}
 }
 
 // EventHandler returns the underlying graphql-ws event handler. It's an implementation of subscription.Protocol.
